@@ -283,6 +283,13 @@ func c17TicksCheck(c *C17Scale, r *core.Rec) {
 	}
 	// Ticks(o)
 	major, minor := s.Ticks(o)
+	keepMajor, keepMinor := append([]float64{}, major...), append([]float64{}, minor...)
+	defer func() {
+		// tick slices already returned keep their values while the scales are used further
+		if !equalF(major, keepMajor) || !equalF(minor, keepMinor) {
+			r.Fail("ticks-retained", "Linear{%v,%v,base %d}.Ticks(%+v): the returned slices changed during later calls: %v / %v, were %v / %v", c.Min, c.Max, c.Base, o, trunc(major), trunc(minor), trunc(keepMajor), trunc(keepMinor))
+		}
+	}()
 	r.Trans(1)
 	wantL, wantOK := c17Lowest(asc, o, -250, 80)
 	if !wantOK {
